@@ -51,15 +51,21 @@ def configs(tier):
             for kind in F.TREE_KINDS:
                 if fam in deep:
                     if tier == 'quick':
-                        out.append((fam, kind, impl, (2, 2), 5 if c else 4, 1, 20 if c else 30))
-                        out.append((fam, kind, impl, (2, 2), 4 if c else 3, 2, 20 if c else 30))
+                        out.append((fam, kind, impl, (2, 2), 5, 1, 20 if c else 60))
+                        out.append((fam, kind, impl, (2, 2), 5 if (c and kind == 'BTree') else 4, 2,
+                                    200 if (c and kind == 'BTree') else 30))
                         if c:
                             out.append((fam, kind, impl, (3, 2), 5, 1, 5))
                             out.append((fam, kind, impl, (2, 3), 5, 1, 5))
+                        out.append((fam, kind, impl, (2, 2), 9, 'thin:asc', 20 if c else 60))
+                        if kind == 'BTree':
+                            out.append((fam, kind, impl, (2, 2), 8, 'thin:desc', 10 if c else 30))
                     else:
                         out.append((fam, kind, impl, (2, 2), 6 if c else 5, 1, 300))
                         out.append((fam, kind, impl, (2, 2), 5 if c else 4, 2, 300))
                         out.append((fam, kind, impl, (2, 2), 4 if c else 3, 3, 300))
+                        for order in ('asc', 'desc', 'mid'):
+                            out.append((fam, kind, impl, (2, 2), 11 if c else 10, 'thin:' + order, 300))
                         for sz in ((3, 2), (2, 3), (3, 3)):
                             out.append((fam, kind, impl, sz, 5, 1, 30))
                 else:
@@ -218,7 +224,17 @@ def job(fam, kind, impl, sizes, n, L):
     if sizes:
         F.set_sizes(fam, *sizes)
     tree = ctx.is_tree
-    txns, extra = txn_alphabet(ctx, keys, vals, L)
+    prefix_hist = ()
+    if isinstance(L, str) and L.startswith('thin:'):
+        # thinning space: all n keys inserted by one committed transaction in a scripted
+        # order, then BFS over single-deletion transactions
+        prefix_hist = (S.build_prefix(ctx, keys, vals, L[5:]),)
+        txns = [(op,) for op in S.delete_alphabet(ctx, keys)]
+        extra = []
+        if ctx.is_map:
+            extra = [(('setitem', k, vals[(i + 1) % 2]),) for i, k in enumerate(keys)]
+    else:
+        txns, extra = txn_alphabet(ctx, keys, vals, L)
     guards = collections.Counter()
     outcomes = collections.Counter()
     violations = []
@@ -230,10 +246,18 @@ def job(fam, kind, impl, sizes, n, L):
             w.commit(w.run(ops))
         return w
 
-    w0 = rebuild(())
+    w0 = rebuild(prefix_hist)
     k0 = (C.dump(w0.t, tree), layout(w0.t, tree))
     seen = {k0}
-    frontier = collections.deque([((), k0)])
+    frontier = collections.deque([(prefix_hist, k0)])
+    if prefix_hist:
+        def report0(site, cls, detail):
+            violations.append(dict(
+                prop='C04', sig=dict(fam=fam, kind=kind, impl=impl, site=site, cls=cls,
+                                     action='commit', first_op='build', last_op='build'),
+                case=dict(base, history=[], ops=list(prefix_hist[0]), action='commit'),
+                detail=detail))
+        verify_reader(ctx, w0, sizes, w0.model.contents(), report0, guards, 'scripted build')
     states, transitions, compared = 1, 0, 0
     sample = None
     while frontier:
